@@ -44,5 +44,21 @@ func Decode(b []byte) (v uint64, n int, err error) {
 	return 0, 0, errors.New("unterminated leb128")
 }
 
+// Decode64 reads one value of up to ten bytes (the whole 64-bit range; groups beyond bit 63 are rejected).
+func Decode64(b []byte) (v uint64, n int, err error) {
+	for i := 0; i < len(b) && i < 10; i++ {
+		g := uint64(b[i] & 0x7F)
+		if i == 9 && g > 1 {
+			return 0, 0, errors.New("leb128 value exceeds 64 bits")
+		}
+		v |= g << (7 * uint(i))
+		if b[i]&0x80 == 0 {
+			return v, i + 1, nil
+		}
+	}
+
+	return 0, 0, errors.New("unterminated leb128")
+}
+
 // Size is the minimal encoded size of v.
 func Size(v uint64) int { return len(Encode(v)) }
